@@ -25,42 +25,42 @@ def partner (files1 files2 : List (Int × Int)) (mi : Int) (i j : Nat) : Bool :=
   | some p, some s => decide (s.1 - mi ≤ p.2) && decide (p.1 ≤ s.2 + mi)
   | _, _ => false
 
-theorem matchFiles_ok {files1 files2 : List (Int × Int)} {start end_ mi : Int}
-    (h1 : findIdx (start - mi) (end_ + mi) files1 ≠ [])
-    (h2 : findIdx (start - mi) (end_ + mi) files2 ≠ []) :
-    matchFiles files1 files2 start end_ mi = .ok
-      (((findIdx (start - mi) (end_ + mi) files1).map (fun i =>
-        (i, (findIdx (start - mi) (end_ + mi) files2).filter (partner files1 files2 mi i)))).filter
+theorem matchPeriod_ok {files1 files2 : List (Int × Int)} {a b mi : Int}
+    (h1 : findIdx a b files1 ≠ [])
+    (h2 : findIdx a b files2 ≠ []) :
+    matchPeriod files1 files2 a b mi = .ok
+      (((findIdx a b files1).map (fun i =>
+        (i, (findIdx a b files2).filter (partner files1 files2 mi i)))).filter
           (fun m => !m.2.isEmpty)) := by
-  unfold matchFiles
-  have e1 : (findIdx (start - mi) (end_ + mi) files1).isEmpty = false := by
-    cases hh : findIdx (start - mi) (end_ + mi) files1 with
+  unfold matchPeriod
+  have e1 : (findIdx a b files1).isEmpty = false := by
+    cases hh : findIdx a b files1 with
     | nil => exact absurd hh h1
     | cons _ _ => rfl
-  have e2 : (findIdx (start - mi) (end_ + mi) files2).isEmpty = false := by
-    cases hh : findIdx (start - mi) (end_ + mi) files2 with
+  have e2 : (findIdx a b files2).isEmpty = false := by
+    cases hh : findIdx a b files2 with
     | nil => exact absurd hh h2
     | cons _ _ => rfl
   simp only [e1, e2, Bool.or_self, Bool.false_eq_true, if_false]
   rfl
 
-theorem matchFiles_error {files1 files2 : List (Int × Int)} {start end_ mi : Int}
-    (h : findIdx (start - mi) (end_ + mi) files1 = [] ∨ findIdx (start - mi) (end_ + mi) files2 = []) :
-    matchFiles files1 files2 start end_ mi = .error .noFiles := by
-  unfold matchFiles
+theorem matchPeriod_error {files1 files2 : List (Int × Int)} {a b mi : Int}
+    (h : findIdx a b files1 = [] ∨ findIdx a b files2 = []) :
+    matchPeriod files1 files2 a b mi = .error .noFiles := by
+  unfold matchPeriod
   rcases h with h | h <;> simp [h]
 
 /-- membership in the flattened match list -/
-theorem mem_flatten_matchFiles {files1 files2 : List (Int × Int)} {start end_ mi : Int}
-    {ms : List (Nat × List Nat)} (h : matchFiles files1 files2 start end_ mi = .ok ms) (i j : Nat) :
+theorem mem_flatten_matchFiles {files1 files2 : List (Int × Int)} {a b mi : Int}
+    {ms : List (Nat × List Nat)} (h : matchPeriod files1 files2 a b mi = .ok ms) (i j : Nat) :
     (i, j) ∈ flattenMatches ms ↔
-      i ∈ findIdx (start - mi) (end_ + mi) files1 ∧ j ∈ findIdx (start - mi) (end_ + mi) files2 ∧
+      i ∈ findIdx a b files1 ∧ j ∈ findIdx a b files2 ∧
       partner files1 files2 mi i j = true := by
-  by_cases h1 : findIdx (start - mi) (end_ + mi) files1 = []
-  · rw [matchFiles_error (Or.inl h1)] at h; cases h
-  by_cases h2 : findIdx (start - mi) (end_ + mi) files2 = []
-  · rw [matchFiles_error (Or.inr h2)] at h; cases h
-  rw [matchFiles_ok h1 h2] at h
+  by_cases h1 : findIdx a b files1 = []
+  · rw [matchPeriod_error (Or.inl h1)] at h; cases h
+  by_cases h2 : findIdx a b files2 = []
+  · rw [matchPeriod_error (Or.inr h2)] at h; cases h
+  rw [matchPeriod_ok h1 h2] at h
   cases h
   unfold flattenMatches
   simp only [List.mem_flatMap, List.mem_filter, List.mem_map, Prod.mk.injEq]
@@ -96,20 +96,20 @@ theorem nodup_flattenMatches_aux (l : List (Nat × List Nat)) (h1 : (l.map (·.1
       exact h1.1 (List.mem_map.mpr ⟨m', hm', this⟩)
 
 /-- every file pair occurs at most once among the flattened matches -/
-theorem nodup_flatten_matchFiles {files1 files2 : List (Int × Int)} {start end_ mi : Int}
-    {ms : List (Nat × List Nat)} (h : matchFiles files1 files2 start end_ mi = .ok ms) :
+theorem nodup_flatten_matchFiles {files1 files2 : List (Int × Int)} {a b mi : Int}
+    {ms : List (Nat × List Nat)} (h : matchPeriod files1 files2 a b mi = .ok ms) :
     (flattenMatches ms).Nodup := by
-  by_cases h1 : findIdx (start - mi) (end_ + mi) files1 = []
-  · rw [matchFiles_error (Or.inl h1)] at h; cases h
-  by_cases h2 : findIdx (start - mi) (end_ + mi) files2 = []
-  · rw [matchFiles_error (Or.inr h2)] at h; cases h
-  rw [matchFiles_ok h1 h2] at h
+  by_cases h1 : findIdx a b files1 = []
+  · rw [matchPeriod_error (Or.inl h1)] at h; cases h
+  by_cases h2 : findIdx a b files2 = []
+  · rw [matchPeriod_error (Or.inr h2)] at h; cases h
+  rw [matchPeriod_ok h1 h2] at h
   cases h
   apply nodup_flattenMatches_aux
   · refine List.Nodup.sublist ((List.filter_sublist).map _) ?_
     rw [List.map_map]
     have : ((fun m : Nat × List Nat => m.1) ∘ fun i =>
-        (i, (findIdx (start - mi) (end_ + mi) files2).filter (partner files1 files2 mi i))) = id := by
+        (i, (findIdx a b files2).filter (partner files1 files2 mi i))) = id := by
       funext i; rfl
     rw [this, List.map_id]
     exact nodup_findIdx _ _ _
@@ -117,5 +117,43 @@ theorem nodup_flatten_matchFiles {files1 files2 : List (Int × Int)} {start end_
     simp only [List.mem_filter, List.mem_map] at hm
     obtain ⟨⟨i, _, rfl⟩, _⟩ := hm
     exact (nodup_findIdx _ _ _).filter _
+
+/-- `t` lies in the (possibly open) period `[start, end]` -/
+def inPeriod (start end_ : Option Int) (t : Int) : Bool :=
+  (match start with
+    | none => true
+    | some s => decide (s ≤ t)) &&
+  (match end_ with
+    | none => true
+    | some e => decide (t ≤ e))
+
+theorem inPeriod_iff {start end_ : Option Int} {t : Int} :
+    inPeriod start end_ t = true ↔ (∀ s, start = some s → s ≤ t) ∧ (∀ e, end_ = some e → t ≤ e) := by
+  unfold inPeriod
+  cases start <;> cases end_ <;> simp
+
+theorem wlo_le {start : Option Int} {mi t : Int} (hmi : 0 ≤ mi) (ht : dtMin ≤ t)
+    (h : ∀ s, start = some s → s ≤ t) : wlo start mi ≤ t := by
+  unfold wlo
+  cases start with
+  | none => simp only; split <;> omega
+  | some s => have := h s rfl; simp only; split <;> omega
+
+theorem le_whi {end_ : Option Int} {mi t : Int} (hmi : 0 < mi) (ht : t < dtMax)
+    (h : ∀ e, end_ = some e → t ≤ e) : t ≤ whi end_ mi - 1 := by
+  unfold whi
+  cases end_ with
+  | none => simp only; split <;> omega
+  | some e => have := h e rfl; simp only; split <;> omega
+
+/-- a file holding a data point of the period is found in the widened, clipped period -/
+theorem mem_findIdx_widened {files : List (Int × Int)} {start end_ : Option Int} {mi t : Int} {i : Nat}
+    (hi : i < files.length) (hc : files[i].1 ≤ t ∧ t ≤ files[i].2) (hmi : 0 < mi)
+    (hr : dtMin ≤ t ∧ t < dtMax) (hp : inPeriod start end_ t = true) :
+    i ∈ findIdx (wlo start mi) (whi end_ mi) files := by
+  obtain ⟨hs, he⟩ := inPeriod_iff.mp hp
+  have h1 := wlo_le (le_of_lt hmi) hr.1 hs
+  have h2 := le_whi hmi hr.2 he
+  exact mem_findIdx.mpr ⟨hi, by omega, by omega⟩
 
 end CFiles
